@@ -62,6 +62,10 @@ class Controller:
                 self.gate_timeouts += 1
                 self.parked.pop(x, None)
 
+    def stall(self):
+        # code that keeps deviating from the documented in-flight sets (it is reported as such) is not waited for at length
+        return STALL_TIMEOUT if len(self.deviations) <= 40 else 0.02
+
     def finish(self):
         with self.cv:
             self.done = True
@@ -94,7 +98,7 @@ class Controller:
                     nstarted += 1
                 expected = list(inflight)
                 with self.cv:
-                    ok = self.cv.wait_for(lambda: self.done or all(e in self.parked for e in expected), timeout=STALL_TIMEOUT)
+                    ok = self.cv.wait_for(lambda: self.done or all(e in self.parked for e in expected), timeout=self.stall())
                     if self.done and not self.parked:
                         return
                     if not ok or not all(e in self.parked for e in expected):
@@ -122,7 +126,7 @@ class Controller:
                         # the next release waits until this completion has been handed to the event loop: completion
                         # order as seen by parallel_map == release order, not thread timing
                         target_n = len(self.released)
-                        self.cv.wait_for(lambda: self.notified >= target_n or self.done, timeout=STALL_TIMEOUT)
+                        self.cv.wait_for(lambda: self.notified >= target_n or self.done, timeout=self.stall())
                 if e in chunk_set and e not in completed:
                     completed.add(e)
                     if e in inflight:
@@ -130,7 +134,7 @@ class Controller:
         # drain anything unexpected (e.g. elements called twice)
         while True:
             with self.cv:
-                self.cv.wait_for(lambda: self.done or self.parked, timeout=STALL_TIMEOUT)
+                self.cv.wait_for(lambda: self.done or self.parked, timeout=self.stall())
                 if not self.parked:
                     if self.done:
                         return
